@@ -75,6 +75,7 @@ static void second_life(void) {
       const ipr::Translation_unit& ua = a->unit; Fingerprint f; fingerprint<ipr::Namespace>(&ua.global_namespace(), f); fingerprint<ipr::Name>(&ua.global_namespace().name(), f);
       { Printer pp { a->lx, osa }; vp_outcome([&] { pp << a->unit; }); }
       a->lx.decompose(a->lx.static_specifier() | a->lx.inline_specifier()); a->lx.decompose(a->lx.const_qualifier());
+      for (auto sp : { u8"T", u8"i", u8"_", u8"ab", u8"int", u8"" }) { auto& id = a->lx.get_identifier(sp); a->lx.get_operator(sp); a->lx.get_linkage(sp); vp_assert(id.string().characters() == util::word_view(sp), 6); }
       impl::Module* mod = new impl::Module(a->lx); mod->make_unit(); delete mod;
       delete a;
    }
@@ -90,6 +91,12 @@ static void second_life(void) {
    vp_assert(&b->lx.get_identifier(u8"") == id, 3);
    { Printer pp { b->lx, osb }; vp_assert(vp_outcome([&] { pp << b->unit; }) != 2, 4); }
    b->lx.decompose(b->lx.static_specifier() | b->lx.inline_specifier()); b->lx.decompose(b->lx.const_qualifier());
+   // the same short spellings as in the first life, through the word-keyed constructors: B's own nodes, spelled as asked
+   for (auto sp : { u8"T", u8"i", u8"_", u8"ab", u8"int", u8"" }) {
+      auto& idn = b->lx.get_identifier(sp); auto& op = b->lx.get_operator(sp); auto& lk = b->lx.get_linkage(sp);
+      vp_assert(idn.string().characters() == util::word_view(sp) && op.opname().characters() == util::word_view(sp) && lk.language().what().characters() == util::word_view(sp), 7);
+      vp_assert(&b->lx.get_identifier(b->lx.get_string(sp)) == &idn, 8);
+   }
    impl::Module* mod = new impl::Module(b->lx); const ipr::Module_unit& mu = *mod->make_unit();
    Fingerprint g; fingerprint<ipr::Namespace>(&mu.global_namespace(), g); fingerprint<ipr::Name>(&mu.global_namespace().name(), g);
    tb.recheck(5);
